@@ -3,17 +3,14 @@
 -/
 import PasfmtModel.Proofs.PipelineC01
 import PasfmtModel.Model.Contracts
+import PasfmtModel.Proofs.LexBoundaries
 
 namespace Pasfmt.C01
 
 /-
-  Full statement (target):
-    ∀ cfg O s out, ValidUtf8 s → format cfg O s = some out → WrapFrame O →
-      foldStrip out = foldStrip s
-  The theorem below is that statement with `ValidUtf8 s` replaced by its consequence
-  "no token content has a dangling E3 byte" (`hnd`), which the check evaluates on every run
-  (`nd=1` field of the `fmt` stream).  Deriving `hnd` from `ValidUtf8 s` needs
-  `lex_char_boundaries` (C13), still open; hence the `_partial` suffix.
+  `C01_format` below is the full statement; `C01_format_partial` is the same statement with
+  `ValidUtf8 s` replaced by its consequence "no token content has a dangling E3 byte" (`hnd`), kept
+  because it also covers byte strings that are not UTF-8.
 -/
 theorem C01_format_partial (cfg : Config) (O : Oracles) (s out : Bytes)
     (h : format cfg O s = some out)
@@ -37,6 +34,21 @@ theorem C01_format_partial (cfg : Config) (O : Oracles) (s out : Bytes)
       · exact (hall r h1).ws_gap
       · simp at h1; subst h1; exact he.ws_gap
     rw [formatTokens_foldStrip cfg O toks hW hraw, hloss]
+
+/-- **C01.**  For every well-formed UTF-8 input, every configuration, every parser behaviour and every
+    wrapper behaviour that satisfies the frame contract, the formatter returns an output (the
+    scanner never fails) and the output has the same non-blank characters in the same order as the
+    input, up to ASCII letter case. -/
+theorem C01_format (cfg : Config) (O : Oracles) (s : Bytes) (hv : ValidUtf8 s) (hW : WrapFrame O) :
+    ∃ out, format cfg O s = some out ∧ foldStrip out = foldStrip s := by
+  obtain ⟨toks, hl⟩ := lex_total s
+  have hnd : ∀ toks', lex s = some toks' → ∀ t ∈ toks', nd t.content = true := by
+    intro toks' hl' t ht
+    exact valid_nd _ (lexWith_char_boundaries false s toks' hv hl' t ht).2
+  have hfmt : ∃ out, format cfg O s = some out := by
+    unfold format; rw [hl]; exact ⟨_, rfl⟩
+  obtain ⟨out, ho⟩ := hfmt
+  exact ⟨out, ho, C01_format_partial cfg O s out ho hW hnd⟩
 
 /-- the reconstructor emits every token's content exactly once, in order, separated by blank-only
     gaps — for **every** assignment of whitespace counters and every ignored-set -/
